@@ -588,9 +588,44 @@ class Engine:
             expr = self.rename(expr, ren)
         else:
             raise AnalysisError("unsupported iteration space %s" % kind)
+        if kind in ("col", "rowabs"):
+            expr = self.forward_lines(expr, kind, dom)
         r = Relation(arr.name, fam, kind, dom, expr, getattr(interp.dom, "cur_line", 0), self.cur)
         arr.rels.append(r)
         self.relations.append(r)
+
+    def forward_lines(self, expr, kind, dom):
+        """store-to-load forwarding on boundary lines: an entry `name|fam|=p|+0` read by a column relation is the value the
+        latest earlier relation stored on that very line of `name` (`xgrad[nx::nx+1] = xgrad[::nx+1]` after
+        `xgrad[::nx+1] = d[::nx] - d[nx-1::nx]`).  Only when that relation is found walking back over relations that provably
+        do not touch the line; otherwise the entry stays the free atom it was."""
+        A = self.alg
+        axis, other = ("i", "j") if kind == "col" else ("j", "i")
+        mp = {}
+        for aid in A.atoms_of(expr):
+            m = ATOM.match(A.atoms[aid].name)
+            if not m or m.group(other) != "+0" or not m.group(axis).startswith("="):
+                continue
+            line = m.group(axis)[1:]
+            for o in reversed(self.relations):
+                if o.array != m.group("name"):
+                    continue
+                if o.fam != m.group("fam"):
+                    break
+                if o.kind == kind:
+                    if o.dom[axis] == line:
+                        if A.equal(o.dom[other][0], dom[other][0]) and A.equal(o.dom[other][1], dom[other][1]):
+                            mp[aid] = o.expr
+                        break
+                    if isinstance(o.dom[axis], str) and {o.dom[axis], line} <= {"0", "nx", "ny", "nx-1", "ny-1"}:
+                        continue                      # another boundary line
+                    break
+                if o.kind == "row" and isinstance(o.dom.get(axis), tuple):
+                    lo, hi = A.show(o.dom[axis][0]), A.show(o.dom[axis][1])
+                    if (line == "0" and lo == "1") or (line in ("nx", "ny") and hi == line):
+                        continue                      # interior rows: the line is outside their range
+                break
+        return A.subst(expr, mp) if mp else expr
 
     def rename(self, expr, fn):
         A = self.alg
